@@ -165,8 +165,10 @@ def gen_supported(ctx, thorough):
                 n = rng.randint(17, 40)
         else:
             n = rng.randint(2, 6 if thorough else 4)
-        dim = n if pd == 1 else n * n
         reg = rng.random() < 0.2
+        if reg and pd == 2:       # RegularizedGMRF takes no geometry argument: 1-D only
+            pd, n = 1, rng.randint(2, 16)
+        dim = n if pd == 1 else n * n
         fkind = rng.choice(["id", "id", "scaled"])
         c = 1 + rng.choice([-8, -5, -3, -1, 1, 2, 4, 7]) * 2.0 ** -20
         meank = rng.choice(["vec", "vec", "zero"])
@@ -226,7 +228,7 @@ def build_supported(cuqi, spec, f):
     mean = np.array(spec["mean"], dtype=float)
     if spec["reg"]:
         from cuqi.implicitprior import RegularizedGMRF
-        x = RegularizedGMRF(mean, prec=f, bc_type=spec["bc"], order=spec["order"], constraint="nonnegativity", name="x", **geom)
+        x = RegularizedGMRF(mean, prec=f, bc_type=spec["bc"], order=spec["order"], constraint="nonnegativity", name="x")
     else:
         x = D.GMRF(mean, prec=f, bc_type=spec["bc"], order=spec["order"], name="x", **geom)
     return D.Posterior(x.to_likelihood(b), prior)
